@@ -547,7 +547,10 @@ impl Melda {
                 // An object can be None if its an "empty" delta array descriptor
                 if let Some(object) = object {
                     let digest = digest_object(&object).unwrap(); // Digest of the current object
-                    if digest.ne(winning_revision.digest()) {
+                    // A (non-empty) delta descriptor is always a change, even when it is the same
+                    // edit script as the one stored in the winning revision
+                    let is_delta = is_array_descriptor(uuid) && !winning_revision.is_deleted();
+                    if is_delta || digest.ne(winning_revision.digest()) {
                         // Digest is different, there was an update
                         let rev = Revision::new_updated(digest, winning_revision);
                         let winning_revision = winning_revision.clone();
